@@ -28,13 +28,20 @@ pub fn shell_instr(i: &Instr) -> String
         Instr::EmitConst { t, tag } => format!("printf '%s' '{}' > {}", tag, t),
         Instr::EmitMix { t, tag, srcs } =>
         {
-            let hs: Vec<String> = srcs.iter().map(|s| format!("$(sha256sum < {} | cut -c1-6)", s)).collect();
-            format!("printf '%s' \"{}[{}]\" > {}", tag, hs.join(","), t)
+            // h<k>=$(sha256sum < src) fails the chain when src is missing, like the interpreter does
+            let mut pre = String::new();
+            let mut hs = vec![];
+            for (k, s) in srcs.iter().enumerate()
+            {
+                pre.push_str(&format!("h{}=$(sha256sum < {}) && ", k, s));
+                hs.push(format!("${{h{}%\"${{h{}#??????}}\"}}", k, k));
+            }
+            format!("{}printf '%s' \"{}[{}]\" > {}", pre, tag, hs.join(","), t)
         }
         Instr::ChmodX { t } => format!("chmod +x {}", t),
         Instr::Fail { .. } => "false".to_string(),
         Instr::FailIf { flag } => format!("test ! -e {}", flag),
-        Instr::FailOn { src, content } => format!("test \"$(cat {})\" != '{}'", src, content),
+        Instr::FailOn { src, content } => format!("c=$(cat {}) && test \"$c\" != '{}'", src, content),
         Instr::Nop { .. } => "true".to_string(),
     }
 }
